@@ -10,13 +10,15 @@ Program JSON:
 Trees: {"k":"in"|"ln","n":name,"br":[t]|[t0,t1]} {"k":"fo","f":form,"b":t}
        {"k":"ret","e":"const"|"acc","c":0|1} {"k":"none"} {"k":"unimpl"} {"k":"raise"}
 A name without "." is relative to the form instance that owns the line.
+"enum": [line, ...] (optional, per catalogue entry): lines declared as EnumField -- their blank value is stored as
+None (every other field type stores 0 / "" / False); a reader sees a blank as 0.  The specification is the same.
 """
 import random
 
 from common import Rec, tla
 import natsort
 
-LINE_POOL = ["1", "2", "2a", "3", "10", "1b", "7", "12", "4z"]
+LINE_POOL = ["1", "2", "2a", "3", "10", "1b", "7", "12", "4z", "2_a", "1-b"]     # "2_a"/"2a" and "1-b"/"1b" have the same natural sort key
 INPUT_POOL = ["x", "y", "w", "q"]
 
 
@@ -138,7 +140,8 @@ class Gen(object):
             inst = None
             if self.with_instances and c != "a" and r.random() < 0.3:
                 inst = ["0", "1"]
-            cat[c] = {"instances": inst, "inputs": r.sample(INPUT_POOL, ni), "req": ls[:nreq], "opt": ls[nreq:], "body": {}}
+            cat[c] = {"instances": inst, "inputs": r.sample(INPUT_POOL, ni), "req": ls[:nreq], "opt": ls[nreq:], "body": {},
+                      "enum": [l for l in ls if r.random() < 0.2]}
         prog = {"id": pid, "catalogue": cat, "unknown": ["z"], "request": [], "fieldNames": []}
         # the pool of things a line may read
         line_refs, input_refs = [], []
@@ -153,6 +156,8 @@ class Gen(object):
             own_i = cat[c]["inputs"]
             for l in own_l:
                 cat[c]["body"][l] = self.tree(self.depth, own_l, own_i, line_refs, input_refs, hazard_lines, hazard_inputs, cnames, prog)
+                if l in cat[c]["enum"]:
+                    cat[c]["body"][l] = self.blanks(cat[c]["body"][l])
         # request
         reqs = [r.choice(instances_of(prog, "a"))]
         if len(cnames) > 1 and r.random() < 0.35:
@@ -168,6 +173,16 @@ class Gen(object):
             if cands:
                 prog["fieldNames"] = [r.choice(cands)]
         return prog
+
+    def blanks(self, t):
+        """an enumeration line is often blank"""
+        if t["k"] == "ret" and self.r.random() < 0.5:
+            return {"k": "none"}
+        if "br" in t:
+            t["br"] = [self.blanks(b) for b in t["br"]]
+        if "b" in t:
+            t["b"] = self.blanks(t["b"])
+        return t
 
     def tree(self, depth, own_l, own_i, line_refs, input_refs, hz_l, hz_i, cnames, prog):
         r = self.r
@@ -256,25 +271,22 @@ HANDMADE = [
                                   "3": {"k": "ln", "n": "1b", "br": [{"k": "ret", "e": "acc", "c": 0}]},
                                   "1b": {"k": "in", "n": "x", "br": [{"k": "ret", "e": "acc", "c": 0}]}}}},
      "unknown": ["z"], "request": ["a"], "fieldNames": []},
-    # a cycle through OPTIONAL lines of a form that is already loaded (each is demanded by a line, never required)
-    {"catalogue": {"a": {"instances": None, "inputs": [], "req": ["1", "10"], "opt": ["2", "3"],
-                         "body": {"1": {"k": "ln", "n": "2", "br": [{"k": "ret", "e": "acc", "c": 0}]},
-                                  "10": {"k": "ln", "n": "3", "br": [{"k": "ret", "e": "acc", "c": 0}]},
-                                  "2": {"k": "ln", "n": "2", "br": [{"k": "ret", "e": "acc", "c": 0}]},
-                                  "3": {"k": "ln", "n": "2", "br": [{"k": "ln", "n": "3", "br": [{"k": "ret", "e": "acc", "c": 0}]}]}}}},
-     "unknown": ["z"], "request": ["a"], "fieldNames": []},
-    # an optional line with many users (it must still be evaluated once)
-    {"catalogue": {"a": {"instances": None, "inputs": ["x"], "req": ["10", "12", "7", "3"], "opt": ["1b"],
-                         "body": {"10": {"k": "ln", "n": "1b", "br": [{"k": "ret", "e": "acc", "c": 0}]},
-                                  "12": {"k": "ln", "n": "1b", "br": [{"k": "ret", "e": "acc", "c": 0}]},
-                                  "7": {"k": "ln", "n": "1b", "br": [{"k": "ret", "e": "acc", "c": 0}]},
-                                  "3": {"k": "ln", "n": "1b", "br": [{"k": "ret", "e": "acc", "c": 0}]},
-                                  "1b": {"k": "in", "n": "x", "br": [{"k": "ret", "e": "acc", "c": 0}]}}}},
-     "unknown": ["z"], "request": ["a"], "fieldNames": []},
     # a line read through the Mapping API (v.get) that turns out unimplemented
     {"catalogue": {"a": {"instances": None, "inputs": [], "req": ["1"], "opt": ["2"],
                          "body": {"1": {"k": "ln", "via": "get", "n": "2", "br": [{"k": "ret", "e": "acc", "c": 0}]},
                                   "2": {"k": "unimpl"}}}},
+     "unknown": ["z"], "request": ["a"], "fieldNames": []},
+    # two lines whose names have the same natural-order key (punctuation is ignored by it)
+    {"catalogue": {"a": {"instances": None, "inputs": ["x"], "req": ["2a", "2_a", "1"], "opt": [],
+                         "body": {"2a": {"k": "ret", "e": "const", "c": 1},
+                                  "2_a": {"k": "in", "n": "x", "br": [{"k": "ret", "e": "acc", "c": 0}, {"k": "unimpl"}]},
+                                  "1": {"k": "ret", "e": "const", "c": 0}}}},
+     "unknown": ["z"], "request": ["a"], "fieldNames": []},
+    # a blank enumeration line (stored as None) read by a chain of lines
+    {"catalogue": {"a": {"instances": None, "inputs": ["x"], "req": ["3"], "opt": ["1", "2"], "enum": ["2"],
+                         "body": {"3": {"k": "ln", "n": "1", "br": [{"k": "ret", "e": "acc", "c": 0}]},
+                                  "1": {"k": "ln", "n": "2", "br": [{"k": "ret", "e": "const", "c": 1}, {"k": "unimpl"}]},
+                                  "2": {"k": "in", "n": "x", "br": [{"k": "none"}, {"k": "ret", "e": "const", "c": 1}]}}}},
      "unknown": ["z"], "request": ["a"], "fieldNames": []},
     # the same form requested twice
     {"catalogue": {"a": {"instances": None, "inputs": ["x"], "req": ["1"], "opt": [],
@@ -299,11 +311,37 @@ def generate(n, seed_, **kw):
 # ---------------------------------------------------------------------------------------------
 # real Form classes
 
+def plain_value(v):
+    """abstract value (0/1) of what a generated form stored or printed for a line"""
+    if v is None or v == "":
+        return 0
+    if getattr(type(v), "_hv_bit", False):
+        return v.value
+    if isinstance(v, str) and v.startswith("Bit."):
+        return {"Bit.ZERO": 0, "Bit.ONE": 1}[v]
+    return int(v)
+
+
 def build_forms(prog):
     """-> list of habutax Form subclasses implementing the program (imports habutax lazily)"""
     from habutax.form import Form
+    import enum
     from habutax.inputs import IntegerInput
-    from habutax.fields import IntegerField
+    from habutax.fields import IntegerField, EnumField
+
+    class Bit(enum.Enum):
+        ZERO = 0
+        ONE = 1
+    Bit._hv_bit = True
+
+    def plain(val):
+        return 0 if val is None else (val.value if isinstance(val, Bit) else val)
+
+    def as_bit(fn):
+        def g(s, i, v):
+            out = fn(s, i, v)
+            return None if out is None else Bit(out)
+        return g
 
     def interp(tree):
         def fn(s, i, v):
@@ -311,16 +349,16 @@ def build_forms(prog):
             while True:
                 k = t["k"]
                 if k == "ln" and t.get("via") == "get":
-                    val = v.get(t["n"], 0)
+                    val = plain(v.get(t["n"], 0))
                     acc = (acc + val) % 2
                     t = t["br"][0 if len(t["br"]) == 1 else val]
                 elif k == "ln" and t.get("via") == "in":
                     val = 1 if (t["n"] in v) else 0      # always present once the line has been computed
-                    val = v[t["n"]] if val else 0
+                    val = plain(v[t["n"]]) if val else 0
                     acc = (acc + val) % 2
                     t = t["br"][0]
                 elif k == "in" or k == "ln":
-                    val = (i if k == "in" else v)[t["n"]]
+                    val = plain((i if k == "in" else v)[t["n"]])
                     acc = (acc + val) % 2
                     t = t["br"][0 if len(t["br"]) == 1 else val]
                 elif k == "fo":
@@ -349,9 +387,13 @@ def build_forms(prog):
 
                 def __init__(self, **kwargs):
                     inputs = [IntegerInput(n, description="input " + n) for n in d["inputs"]]
-                    req = [IntegerField(l, interp(d["body"][l])) for l in d["req"]]
-                    opt = [IntegerField(l, interp(d["body"][l])) for l in d["opt"]]
+                    en = d.get("enum", [])
+                    mk = lambda l: EnumField(l, Bit, as_bit(interp(d["body"][l]))) if l in en else IntegerField(l, interp(d["body"][l]))
+                    req = [mk(l) for l in d["req"]]
+                    opt = [mk(l) for l in d["opt"]]
                     super().__init__(GenForm, inputs, req, opt, **kwargs)
+                    import tracer
+                    tracer.BLANK_OK.update("%s.%s" % (self.name(), l) for l in en)
 
                 def needs_filing(self, values):
                     return False
